@@ -132,6 +132,18 @@ Proof.
     exists fs. split; [exact R|]. rewrite X. cbn [nth prox_of]. rewrite normsparsity_k0 by reflexivity. exact I2.
 Qed.
 
+(* a negative parameter asks for an EMPTY set: no column has l1 norm <= p < 0, no non-negative column sums to p < 0 - whatever the
+   operators return for such a request is infeasible (the code serves it silently; candidate repair: ValueError) *)
+Theorem negative_parameter_empty_set (p : R) : p < 0 ->
+  (forall z, ~ l1n Rops z <= p) /\ (forall z, ~ (Forall (fun a => 0 <= a) z /\ lsum Rops z = p)).
+Proof.
+  intros Hp. split.
+  - intros z H. pose proof (l1n_nonneg z). lra.
+  - intros z (F & S). assert (N : 0 <= lsum Rops z).
+    { clear S. induction F; [cbn; lra | rewrite lsum_cons; lra]. }
+    lra.
+Qed.
+
 (* SECOND DEFECT (round 6): simplex / l1 ball with parameter 0 (reachable through a dict, which registers falsy values).  No sorted entry
    exceeds its threshold, the count is 0 and the Python index count - 1 = -1 wraps around to the LAST threshold (Prox.simplex_tau models
    exactly that): the column [3; 1] is mapped to [1; 0] although the simplex of sum 0 and the l1 ball of radius 0 are {0}.  Witnesses on
